@@ -375,6 +375,26 @@ def contains_capturing(ctx):
         elif key in multi:
             loops = b.natural_loops()
             good = len(loops) == 1
+            rs_any = {_sh(strip_ver(render(p.ret))) for p in ctx.walk(b).paths} if not loops else set()
+            ma = [re.match(r"^(?:<Iter<T> as Iterator>|Iterator)::any\(%s, closure (.*)\[\]\)$" % re.escape(multi[key]), r) for r in rs_any]
+            if not loops and len(ma) == 1 and ma[0]:
+                # the same disjunction written as `elements.iter().any(|o| o is Capture || o.contains_capturing_expressions())`
+                cb = ctx.body(b.path + "::{closure#0}")
+                good = cb is not None
+                if cb is not None:
+                    for q in ctx.walk(cb).paths:
+                        qg, qr = summarize(q)
+                        qg = [_sh(strip_ver(g)) for g in qg]
+                        qr = _sh(strip_ver(qr))
+                        iscap = [g for g in qg if g.startswith("variant(a2)")]
+                        if iscap and iscap[-1] == "variant(a2)=Capture":
+                            good = good and qr == "true"
+                        elif iscap:
+                            good = good and qr == "contains_capturing_expressions(a2)"
+                        else:
+                            good = False
+                _rec(d, key, good, "%s::contains_capturing_expressions must answer true iff some element is a Capture or contains capturing expressions" % key, b.loc())
+                continue
             if good:
                 h = next(iter(loops))
                 n = 0
